@@ -229,8 +229,13 @@ inductive Payload
   | revs (rs : List RevId)     -- a revision stream: these revisions of the source repository
   deriving DecidableEq, Repr
 
+inductive Verb
+  | lockWrite | unlock | setLastRevisionInfo | lastRevisionInfo | getTagsBytes | setTagsBytes
+  | setConfigOption | getConfigFile | getParentMap | insertStream
+  deriving DecidableEq, Repr
+
 structure Req where
-  verb : String
+  verb : Verb
   args : List Bytes
   payload : Payload := .none
   deriving DecidableEq, Repr
@@ -294,46 +299,46 @@ def withToken (st : St) (tokb : Bytes) (f : St → Resp × St) : Resp × St :=
 
 def serve (src : Graph) (st : St) (extra : List RevId) (rq : Req) : Resp × St :=
   match rq.verb, rq.args, rq.payload with
-  | "Branch.lock_write", [tokb], .none =>
+  | .lockWrite, [tokb], .none =>
     (match decTok tokb with
      | none => (failResp .protocol, st)
      | some tok =>
        match primLock st tok with
        | .error e => (failResp e, st)
        | .ok (t, s1) => ({ okay := true, args := [okBytes, encTok (some t)] }, s1))
-  | "Branch.unlock", [tokb], .none =>
+  | .unlock, [tokb], .none =>
     (match decTok tokb with
      | some (some t) =>
        (match primRelease st t with
         | .error e => (failResp e, st)
         | .ok s1 => ({ okay := true, args := [okBytes] }, s1))
      | _ => (failResp .tokenMismatch, st))
-  | "Branch.set_last_revision_info", [tokb, revno, rev], .none =>
+  | .setLastRevisionInfo, [tokb, revno, rev], .none =>
     withToken st tokb fun s =>
       match parseDec revno with
       | none => (failResp .protocol, s)
       | some n => ({ okay := true, args := [okBytes] }, { s with tip := (n, rev) })
-  | "Branch.last_revision_info", [], .none =>
+  | .lastRevisionInfo, [], .none =>
     ({ okay := true, args := [okBytes, toDec st.tip.1, st.tip.2] }, st)
-  | "Branch.get_tags_bytes", [], .none =>
+  | .getTagsBytes, [], .none =>
     ({ okay := true, args := [], payload := .tags st.tags }, st)
-  | "Branch.set_tags_bytes", [tokb], .tags d =>
+  | .setTagsBytes, [tokb], .tags d =>
     withToken st tokb fun s => ({ okay := true, args := [] }, { s with tags := d })
-  | "Branch.set_config_option", [tokb, value, name], .none =>
+  | .setConfigOption, [tokb, value, name], .none =>
     withToken st tokb fun s => ({ okay := true, args := [] }, { s with conf := dset s.conf name value })
-  | "Branch.get_config_file", [name], .none =>
+  | .getConfigFile, [name], .none =>
     -- the file travels as opaque bytes and is parsed by the same code on both sides:
     -- modelled as the answer to the one lookup the client makes
     (match lookup name st.conf with
      | none => ({ okay := true, args := [] }, st)
      | some v => ({ okay := true, args := [v] }, st))
-  | "Repository.get_parent_map", marker :: keys, .none =>
+  | .getParentMap, marker :: keys, .none =>
     if marker = includeMissing then
       -- the requested keys first, then whatever else of their ancestry the server adds
       let all := dedupKeys (keys ++ extra)
       ({ okay := true, args := [okBytes], body := join NL (all.map (pmLine st.revs)) }, st)
     else (failResp .protocol, st)
-  | "Repository.insert_stream", [], .revs rs =>
+  | .insertStream, [], .revs rs =>
     ({ okay := true, args := [okBytes] }, addRevs src st rs)
   | _, _, _ => (failResp .protocol, st)
 
@@ -346,7 +351,7 @@ def respErr (r : Resp) : Err :=
 
 /-- `RemoteBranch.lock_write(token)` → the branch token -/
 def rLock (src : Graph) (st : St) (ex : List RevId) (tok : Option Nat) : Except Err (Nat × St) :=
-  let (r, s1) := serve src st ex { verb := "Branch.lock_write", args := [encTok tok] }
+  let (r, s1) := serve src st ex { verb := .lockWrite, args := [encTok tok] }
   if r.okay then
     match r.args with
     | [_, tb] =>
@@ -357,7 +362,7 @@ def rLock (src : Graph) (st : St) (ex : List RevId) (tok : Option Nat) : Except 
   else .error (respErr r)
 
 def rUnlock (src : Graph) (st : St) (ex : List RevId) (t : Nat) : Except Err St :=
-  let (r, s1) := serve src st ex { verb := "Branch.unlock", args := [encTok (some t)] }
+  let (r, s1) := serve src st ex { verb := .unlock, args := [encTok (some t)] }
   if r.okay then .ok s1 else .error (respErr r)
 
 /-- a locked verb call: lock, call, unlock (what `with branch.lock_write():` amounts to) -/
@@ -382,7 +387,7 @@ def remoteParentMap (fx : Bool) (src : Graph) (st : St) (ex : List RevId) (keys 
   let foundNull : List (RevId × List RevId) := if nullRev ∈ want then [(nullRev, [])] else []
   if ks.isEmpty then foundNull
   else
-    let (r, _) := serve src st ex { verb := "Repository.get_parent_map", args := includeMissing :: ks }
+    let (r, _) := serve src st ex { verb := .getParentMap, args := includeMissing :: ks }
     let got : List (RevId × Option (List RevId)) :=
       if r.body.isEmpty then [] else (split NL r.body).filterMap pmParse
     let found := want.filterMap fun k =>
@@ -394,16 +399,16 @@ def remoteParentMap (fx : Bool) (src : Graph) (st : St) (ex : List RevId) (keys 
 
 def remoteStep (fx : Bool) (src : Graph) (ex : List RevId) (st : St) : Op → Res × St
   | .tipSet n r =>
-    rLocked src st ex fun t => { verb := "Branch.set_last_revision_info", args := [encTok (some t), toDec n, r] }
+    rLocked src st ex fun t => { verb := .setLastRevisionInfo, args := [encTok (some t), toDec n, r] }
   | .tagSet name r =>
     -- set_tag: lock, read the dictionary, write the changed dictionary, unlock
     match rLock src st ex none with
     | .error e => (.err e, st)
     | .ok (t, s1) =>
-      let (g, s2) := serve src s1 ex { verb := "Branch.get_tags_bytes", args := [] }
+      let (g, s2) := serve src s1 ex { verb := .getTagsBytes, args := [] }
       match g.payload with
       | .tags d =>
-        let (r2, s3) := serve src s2 ex { verb := "Branch.set_tags_bytes", args := [encTok (some t)], payload := .tags (dset d name r) }
+        let (r2, s3) := serve src s2 ex { verb := .setTagsBytes, args := [encTok (some t)], payload := .tags (dset d name r) }
         (match rUnlock src s3 ex t with
          | .error e => (.err e, s3)
          | .ok s4 => (if r2.okay then .ok else .err (respErr r2), s4))
@@ -412,7 +417,7 @@ def remoteStep (fx : Bool) (src : Graph) (ex : List RevId) (st : St) : Op → Re
     match rLock src st ex none with
     | .error e => (.err e, st)
     | .ok (t, s1) =>
-      let (g, s2) := serve src s1 ex { verb := "Branch.get_tags_bytes", args := [] }
+      let (g, s2) := serve src s1 ex { verb := .getTagsBytes, args := [] }
       match g.payload with
       | .tags d =>
         (match lookup name d with
@@ -421,20 +426,20 @@ def remoteStep (fx : Bool) (src : Graph) (ex : List RevId) (st : St) : Op → Re
             | .error e => (.err e, s2)
             | .ok s4 => (.err .noSuchTag, s4))
          | some _ =>
-           let (r2, s3) := serve src s2 ex { verb := "Branch.set_tags_bytes", args := [encTok (some t)], payload := .tags (ddel d name) }
+           let (r2, s3) := serve src s2 ex { verb := .setTagsBytes, args := [encTok (some t)], payload := .tags (ddel d name) }
            (match rUnlock src s3 ex t with
             | .error e => (.err e, s3)
             | .ok s4 => (if r2.okay then .ok else .err (respErr r2), s4)))
       | _ => (.err .protocol, s2)
   | .tagDict =>
-    let (g, s1) := serve src st ex { verb := "Branch.get_tags_bytes", args := [] }
+    let (g, s1) := serve src st ex { verb := .getTagsBytes, args := [] }
     (match g.payload with
      | .tags d => (.tags d, s1)
      | _ => (.err .protocol, s1))
   | .confSet name v =>
-    rLocked src st ex fun t => { verb := "Branch.set_config_option", args := [encTok (some t), v, name] }
+    rLocked src st ex fun t => { verb := .setConfigOption, args := [encTok (some t), v, name] }
   | .confGet name =>
-    let (g, s1) := serve src st ex { verb := "Branch.get_config_file", args := [name] }
+    let (g, s1) := serve src st ex { verb := .getConfigFile, args := [name] }
     (match g.args with
      | [] => (.value none, s1)
      | [v] => (.value (some v), s1)
@@ -454,11 +459,11 @@ def remoteStep (fx : Bool) (src : Graph) (ex : List RevId) (st : St) : Op → Re
     match rLock src st ex (some ((presented st good).getD st.nextTok)) with
     | .error e => (.err e, st)
     | .ok (t, s1) =>
-      let (r2, s2) := serve src s1 ex { verb := "Branch.set_last_revision_info", args := [encTok (some t), toDec n, r] }
+      let (r2, s2) := serve src s1 ex { verb := .setLastRevisionInfo, args := [encTok (some t), toDec n, r] }
       (if r2.okay then .ok else .err (respErr r2), s2)
   | .parentMap keys => (.pmap (remoteParentMap fx src st ex keys), st)
   | .tip =>
-    let (g, s1) := serve src st ex { verb := "Branch.last_revision_info", args := [] }
+    let (g, s1) := serve src st ex { verb := .lastRevisionInfo, args := [] }
     (match g.args with
      | [_, n, r] =>
        (match parseDec n with
@@ -472,7 +477,7 @@ def remoteStep (fx : Bool) (src : Graph) (ex : List RevId) (st : St) : Op → Re
       | some _ =>
         -- the stream source is the local repository; the revisions of the ancestry travel as the stream
         let rs := (ancestry src (src.length + 1) [r] []).reverse
-        let (_, s1) := serve src st ex { verb := "Repository.insert_stream", args := [], payload := .revs rs }
+        let (_, s1) := serve src st ex { verb := .insertStream, args := [], payload := .revs rs }
         (.ok, s1)
 
 /-- run a script -/
